@@ -28,6 +28,20 @@ type Tapes struct {
 	run    uint64
 	replay map[string][]uint32 // non-nil: replay mode
 	t      map[string]*Tape
+	root   *Tapes // non-nil: this is a prefixed view of root
+	prefix string
+}
+
+// Sub returns a view whose stream names are prefixed; all draws are recorded
+// in (and replayed from) the root set, so one replay file covers a run that
+// consists of several simulated executions.
+func (ts *Tapes) Sub(prefix string) *Tapes {
+	root := ts
+	if ts.root != nil {
+		root = ts.root
+		prefix = ts.prefix + prefix
+	}
+	return &Tapes{root: root, prefix: prefix + "/"}
 }
 
 func NewTapes(seed, run uint64) *Tapes {
@@ -42,6 +56,9 @@ func ReplayTapes(rec map[string][]uint32) *Tapes {
 }
 
 func (ts *Tapes) Get(name string) *Tape {
+	if ts.root != nil {
+		return ts.root.Get(ts.prefix + name)
+	}
 	ts.mu.Lock()
 	defer ts.mu.Unlock()
 	if t, ok := ts.t[name]; ok {
@@ -61,6 +78,9 @@ func (ts *Tapes) Get(name string) *Tape {
 
 // Recorded returns everything drawn so far, per stream.
 func (ts *Tapes) Recorded() map[string][]uint32 {
+	if ts.root != nil {
+		return ts.root.Recorded()
+	}
 	ts.mu.Lock()
 	defer ts.mu.Unlock()
 	out := map[string][]uint32{}
